@@ -259,6 +259,9 @@ func checkC12(r *Run) {
 	onlyTerminationChannelsClosed(r, tfns, "close-once")
 	ioDeadlineArmed(r, "io-deadline")
 	clientReplyTyped(r, "reply-typed")
+	// a reply must find and release exactly its own request, or some other call never returns and the owner loop can
+	// block on a full reply channel: the tag-multiplexing rules of C05 are necessary conditions here too
+	checkC05(r)
 
 	c12WriteFailure(r, p, owner)
 
@@ -505,6 +508,18 @@ func clientReplyTyped(r *Run, rule string) {
 			continue
 		}
 		n++
+		// the round trip runs under the caller's own context: it ends when that context ends
+		var ctxParam ssa.Value
+		for _, prm := range fn.Params {
+			if prm.Type().String() == "context.Context" {
+				ctxParam = prm
+				break
+			}
+		}
+		for _, snd := range sends {
+			r.Check(ctxParam != nil && len(snd.Call.Args) > 0 && stripConv(snd.Call.Args[0]) == ctxParam, rule, fnName(fn)+": the round trip runs under the caller's context", snd.Pos(),
+				"the request is sent under a context other than the one the caller passed: the call does not end when the caller's context ends")
+		}
 		reply := resultN(sends[0], 0)
 		var oks []ssa.Value
 		eachInstr(fn, func(in ssa.Instruction) {
